@@ -2,6 +2,7 @@
 package c17
 
 import (
+	"encoding/binary"
 	"encoding/json"
 	"fmt"
 	"io"
@@ -9,6 +10,8 @@ import (
 	"os"
 	"runtime"
 	"strings"
+	"sync"
+	"sync/atomic"
 	"testing"
 	"time"
 
@@ -27,6 +30,7 @@ type c17Case struct {
 	Reverse string `json:"reverse"`    // "idle" | "busy": the other end is itself writing while the closer closes
 	Hook    string `json:"hook_delay"` // "", "yield", "5ms" at pipe.beforeCloseUp/Down
 	Seed    int64  `json:"seed"`
+	Dump    bool   `json:"pipe_debug,omitempty"` // SOCKETACE_PIPE_DEBUG=1: PipeData copies through its traffic-dump path
 }
 
 var payloads = []int64{0, 1, 4096, 32768, 65537, 1 << 20, 3 << 20}
@@ -88,9 +92,14 @@ func busyOthers(p *e2e.Pair, n int, seed int64, stop chan struct{}) *e2e.Failure
 }
 
 func runCase(rec *vcommon.Rec, p *e2e.Pair, c *c17Case) (stalled bool) {
+	c.Dump = os.Getenv("SOCKETACE_PIPE_DEBUG") == "1"
 	rec.Mark(c)
 	key := fmt.Sprintf("%s/%s/%s/%d/%d/%d/%s/%s", c.Carrier, c.Closer, c.Mode, c.Len, c.Seg, c.Others, c.Reverse, c.Hook)
 	sigBase := fmt.Sprintf("%s:closer=%s:%s", c.Carrier, c.Closer, c.Mode)
+	if c.Dump {
+		key += "/dump"
+		sigBase = fmt.Sprintf("%s(traffic-dump):closer=%s:%s", c.Carrier, c.Closer, c.Mode)
+	}
 	setHook(c.Hook)
 	defer setHook("")
 	stop := make(chan struct{})
@@ -444,6 +453,122 @@ func runSiblingAbort(rec *vcommon.Rec, carrier, closer, aborter string) {
 	rec.Stat("bytes_verified_before_eof", c.Len)
 }
 
+// runManyCloses: thousands of short logical connections on one session, 8 at a time: the closer writes 65537 bytes
+// in 4 KiB writes and closes at once; the other end must read exactly that and then end-of-stream. The multiplexer's
+// last data frame and its FIN travel back to back here, which is where an end-of-stream can overtake data.
+func runManyCloses(rec *vcommon.Rec, carrier, closer string, total int) {
+	c := &c17Case{Carrier: carrier, Closer: closer, Mode: fmt.Sprintf("many-closes:%d", total), Len: 65537, Seg: 4096, Seed: rec.Seed()*10000 + 9700}
+	rec.Mark(c)
+	// connections are opened concurrently: the application sends an 8-byte tag first and the target files the accepted
+	// connection under it, so that both ends of one logical connection are known
+	p, err := e2e.Start(e2e.Options{Carrier: carrier, Tag: "m", Channels: []e2e.ChanSpec{{Name: "echo", Tagged: true}}})
+	if err != nil {
+		rec.Violation(carrier+":setup-failed", c, err.Error())
+		return
+	}
+	defer p.Close()
+	var mu sync.Mutex
+	var first *e2e.Failure
+	firstAt := -1
+	var ok int64
+	sem := make(chan struct{}, 8)
+	var wg sync.WaitGroup
+	for i := 0; i < total; i++ {
+		mu.Lock()
+		stop := first != nil
+		mu.Unlock()
+		if stop {
+			break
+		}
+		sem <- struct{}{}
+		wg.Add(1)
+		go func(i int) {
+			defer wg.Done()
+			defer func() { <-sem }()
+			tag := uint64(c.Seed)<<20 + uint64(i)
+			var tgt net.Conn
+			o := e2e.Done
+			app, err := p.Dial("echo")
+			if err == nil {
+				var hdr [8]byte
+				binary.BigEndian.PutUint64(hdr[:], tag)
+				if _, err = app.Write(hdr[:]); err == nil {
+					tgt, o = p.Targets["echo"].NextTagged(tag)
+				}
+			}
+			if err != nil || o != e2e.Done {
+				if app != nil {
+					app.Close()
+				}
+				mu.Lock()
+				if first == nil {
+					first = &e2e.Failure{Kind: "open-failed", Inconclusive: o == e2e.Inconclusive, Info: map[string]interface{}{"err": fmt.Sprint(err), "outcome": o.String()}}
+					firstAt = i
+				}
+				mu.Unlock()
+				return
+			}
+			defer app.Close()
+			defer tgt.Close()
+			w, r, dir := app, tgt, "c2t"
+			if closer == "target" {
+				w, r, dir = tgt, app, "t2c"
+			}
+			st := &e2e.Stream{Key: uint64(c.Seed)*100000 + uint64(i), Len: c.Len, Seg: func() int { return 4096 }}
+			var f *e2e.Failure
+			wd := e2e.Go(func() {
+				if _, err := e2e.WriteStream(w, st); err != nil {
+					f = &e2e.Failure{Kind: dir + ":write-error-before-close", Info: map[string]interface{}{"err": err.Error()}}
+					return
+				}
+				w.Close()
+			})
+			var rf *e2e.Failure
+			rd := e2e.Go(func() {
+				if _, rf = e2e.ReadStream(r, st, nil); rf != nil {
+					rf.Kind = dir + ":" + rf.Kind
+					return
+				}
+				rf = e2e.ExpectEOF(r, dir)
+			})
+			switch e2e.Wait(e2e.Go(func() { <-wd; <-rd })) {
+			case e2e.Stalled:
+				if f == nil && rf == nil {
+					f = &e2e.Failure{Kind: dir + ":stalled-before-end-of-stream"}
+				}
+			case e2e.Inconclusive:
+				f = &e2e.Failure{Kind: "busy", Inconclusive: true}
+			}
+			if f == nil {
+				f = rf
+			}
+			if f != nil {
+				mu.Lock()
+				if first == nil {
+					first, firstAt = f, i
+				}
+				mu.Unlock()
+				return
+			}
+			atomic.AddInt64(&ok, 1)
+		}(i)
+	}
+	wg.Wait()
+	rec.Case(fmt.Sprintf("many/%s/%s/%d", carrier, closer, total), true)
+	rec.Seen("tuple(carrier,closer,mode,len-class,others,reverse)", fmt.Sprintf("%s|%s|many-closes|%s|7|idle", carrier, closer, lenName(c.Len)))
+	rec.Stat("closes_verified", ok)
+	rec.Stat("closes_verified_in_rapid_succession:"+carrier, ok)
+	rec.Stat("bytes_verified_before_eof", ok*c.Len)
+	if first != nil {
+		if first.Inconclusive {
+			rec.Inconclusive("many closes: "+first.Kind, c)
+			return
+		}
+		info := map[string]interface{}{"connection_number": firstAt, "closes_verified_before": ok, "detail": first.Info}
+		rec.Violation(fmt.Sprintf("%s:closer=%s:many-closes:%s", carrier, closer, first.Kind), c, info)
+	}
+}
+
 func TestVerifC17(t *testing.T) {
 	e2e.Quiet()
 	rec := vcommon.Open()
@@ -452,6 +577,24 @@ func TestVerifC17(t *testing.T) {
 		var c c17Case
 		if err := json.Unmarshal(rec.Replay, &c); err != nil {
 			t.Fatal(err)
+		}
+		if c.Dump {
+			os.Setenv("SOCKETACE_PIPE_DEBUG", "1")
+		}
+		switch {
+		case strings.HasPrefix(c.Mode, "many-closes:"):
+			n := 4000
+			fmt.Sscanf(c.Mode[len("many-closes:"):], "%d", &n)
+			runManyCloses(rec, c.Carrier, c.Closer, n)
+			return
+		case strings.HasPrefix(c.Mode, "sibling-aborts:"):
+			runSiblingAbort(rec, c.Carrier, c.Closer, c.Mode[len("sibling-aborts:"):])
+			return
+		case strings.HasPrefix(c.Mode, "close-after-"):
+			n := 35
+			fmt.Sscanf(c.Mode[len("close-after-"):], "%d", &n)
+			runLate(rec, c.Carrier, c.Closer, time.Duration(n)*time.Second)
+			return
 		}
 		p, err := e2e.Start(e2e.Options{Carrier: c.Carrier})
 		if err != nil {
@@ -484,6 +627,15 @@ func TestVerifC17(t *testing.T) {
 		for i, x := range sib {
 			if rec.Mine(len(carriers) + 5 + i) {
 				runSiblingAbort(rec, x.carrier, x.closer, x.aborter)
+			}
+		}
+	}
+	if os.Getenv("VERIF_CARRIERS") == "" {
+		// many-closes items come last in the shard numbering
+		many := []struct{ carrier, closer string }{{"tcp", "app"}, {"tcp", "target"}, {"ws", "app"}, {"unix", "target"}}
+		for i, x := range many {
+			if rec.Mine(len(carriers) + 11 + i) {
+				runManyCloses(rec, x.carrier, x.closer, rec.Pick(4000, 20000))
 			}
 		}
 	}
